@@ -72,3 +72,45 @@ Definition utf8_decode_gen (limits : list Z) (maxutf maxuni surlo surhi : Z) (s 
 
 Definition lua_utf8decode := utf8_decode_gen LUA_UTF8_LIMITS LUA_MAXUTF LUA_MAXUNICODE 55296 57343.
 Definition nl_utf8decode := utf8_decode_gen NL_UTF8_LIMITS NL_MAXUTF NL_MAXUNICODE NL_SURR_LO NL_SURR_HI.
+
+(* ---- position arguments ---- *)
+(* lutf8lib.c u_posrelat: 1-based position, 0 = before the string *)
+Definition lua_u_posrelat (pos len : Z) : Z :=
+  if 0 <=? pos then pos
+  else if len <? (0 - u64 pos) mod two64 then 0
+  else len + pos + 1.
+(* utf8.nelua utf8relpos: 0-based position, negative = invalid; isize negation wraps *)
+Definition nl_utf8relpos (pos len : Z) : Z :=
+  if 0 <=? pos then pos - 1
+  else if len <? lneg pos then -1
+  else ladd len pos.
+
+(* ---- utf8.codepoint(s, i [, lax]) with a single position ---- *)
+(* lutf8lib.c codepoint with i = j *)
+Definition lua_utf8codepoint (s : bytes) (i : Z) (strict : bool) : lres Z :=
+  let len := slen s in
+  let posi := lua_u_posrelat i len in
+  if posi <? 1 then LErr                                  (* "out of bounds" *)
+  else if len <? posi then LErr
+  else match lua_utf8decode (skipn (Z.to_nat (posi - 1)) s) strict with
+       | None => LErr                                     (* "invalid UTF-8 code" *)
+       | Some (code, _) => LVal code
+       end.
+
+(* utf8.nelua codepoint: decodes from the START of the string, at most #s times, until p == i.
+   There is no test p < #s: decoding at p = #s reads the terminator, decoding beyond it reads
+   outside the string *)
+Fixpoint nl_cp_loop (k : nat) (s : bytes) (len i p : Z) (strict : bool) : res Z :=
+  match k with
+  | O => Trap                                             (* assert(false, 'out of bounds') *)
+  | S k' =>
+      if len <? p then Unsafe
+      else match nl_utf8decode (skipn (Z.to_nat p) s) strict with
+           | None => Trap                                 (* 'invalid UTF-8 code' *)
+           | Some (code, adv) => if p =? i then Val code else nl_cp_loop k' s len i (p + adv) strict
+           end
+  end.
+Definition nl_utf8codepoint (s : bytes) (i : Z) (strict : bool) : res Z :=
+  let len := slen s in
+  let i0 := nl_utf8relpos i len in
+  if (0 <=? i0) && (i0 <? len) then nl_cp_loop (Z.to_nat len) s len i0 0 strict else Trap.
